@@ -346,6 +346,10 @@ def _run(prop, pid, a, seed, cases, nworkers, scratch, t0):
           f"violation_keys={len(unlisted)} known_reproduced={len(reproduced)} wall={wall:.1f}s")
     top = ", ".join(f"{k}={v}" for k, v in sorted(classes.items())[:60])
     print(f"[{pid}] classes: {top}")
+    if counters:
+        print(f"[{pid}] monitor events: " + ", ".join(f"{k}={v}" for k, v in sorted(counters.items())[:80]))
+    if harness_errors:
+        print(f"[{pid}] {len(harness_errors)} harness errors; first: {harness_errors[0]['harness_error'][-1200:]}")
     for l in lines:
         print(l)
     return code
